@@ -101,7 +101,20 @@ def coqc(workdir, name, timeout=900):
            os.path.join(workdir, name + ".v")]
     t = time.time()
     p = subprocess.run(cmd, capture_output=True, text=True, cwd=workdir)
-    return p.returncode == 0, p.stdout + p.stderr, time.time() - t
+    out = p.stdout + p.stderr
+    # coqc 8.16 occasionally dies with "Fatal error: out of memory" (RSS < 1 GB, plenty free) at a vm_compute, deterministically for some
+    # combinations of directory names and not for others (seen in scratch copies under long paths).  That is the tool failing, not a proof:
+    # the same file is compiled again from a sub-directory of another name; a proof that really fails fails there too.
+    k = 0
+    while p.returncode != 0 and "Fatal error: out of memory" in out and k < 3:
+        k += 1
+        sub = os.path.join(workdir, "_retry" + "x" * (7 * k))
+        os.makedirs(sub, exist_ok=True)
+        shutil.copy(os.path.join(workdir, name + ".v"), os.path.join(sub, name + ".v"))
+        cmd2 = ["timeout", str(timeout), "coqc", "-w", COQ_WARN, "-Q", COQ, "Measured", "-Q", sub, "Run", os.path.join(sub, name + ".v")]
+        p = subprocess.run(cmd2, capture_output=True, text=True, cwd=sub)
+        out = p.stdout + p.stderr
+    return p.returncode == 0, out, time.time() - t
 
 def coqc_many(workdir, names, jobs=16, timeout=900):
     res = {}
